@@ -5,6 +5,7 @@ package scen
 import (
 	"encoding/hex"
 	"fmt"
+	"github.com/datastax/cql-proxy/proxy"
 	"strings"
 	"time"
 
@@ -231,7 +232,7 @@ func runC04(c *Ctx) {
 	r := c.R
 	r.Assume("ground truth is attached by construction: the statement forms are non-idempotent or unparseable by the documented rules; EXECUTE/BATCH-by-id inherit the class of the text the id was prepared from through this proxy, ids the proxy never saw prepared are not positively idempotent")
 	r.Assume("'may have been applied' is decided from the backend's view: the request bytes were fully received and the outcome is not one of unavailable / bootstrapping / read timeout / unprepared")
-	r.Require("sequences_run", "partial_reply_cases", "lost_before_read_cases", "proxy_closed_connections_with_requests_in_flight")
+	r.Require("sequences_run", "partial_reply_cases", "lost_before_read_cases", "proxy_closed_connections_with_requests_in_flight", "custom_policy_cases")
 	type job struct {
 		hosts, conns int
 		class        c04Class
@@ -380,6 +381,12 @@ func runC04(c *Ctx) {
 			delete(beds, bk)
 		}
 	}
+	// a retry policy of the embedder's that always wants to retry
+	for i := 0; i < c.Pick(2, 40); i++ {
+		if c.Mine(i+1) && c.Replay == nil {
+			c04CustomPolicy(c, i)
+		}
+	}
 	// requests in flight on connections that the proxy closes itself (idle timeout, host removed)
 	for i := 0; i < c.Pick(4, 200); i++ {
 		if c.Mine(i) && c.Replay == nil {
@@ -387,4 +394,75 @@ func runC04(c *Ctx) {
 		}
 	}
 	var _ = px.HookCount
+}
+
+// eagerPolicy is a retry policy an embedder might configure: whatever the error, retry (alternating between the same and
+// the next host) the first two times. A policy only ever decides about requests that are safe to send again; for requests
+// that are not positively idempotent the proxy must not even follow it after an outcome that may have applied the request.
+type eagerPolicy struct{}
+
+func (eagerPolicy) dec(n int) proxy.RetryDecision {
+	switch n {
+	case 0:
+		return proxy.RetrySame
+	case 1:
+		return proxy.RetryNext
+	}
+	return proxy.ReturnError
+}
+func (p eagerPolicy) OnReadTimeout(_ *message.ReadTimeout, n int) proxy.RetryDecision {
+	return p.dec(n)
+}
+func (p eagerPolicy) OnWriteTimeout(_ *message.WriteTimeout, n int) proxy.RetryDecision {
+	return p.dec(n)
+}
+func (p eagerPolicy) OnUnavailable(_ *message.Unavailable, n int) proxy.RetryDecision {
+	return p.dec(n)
+}
+func (p eagerPolicy) OnErrorResponse(_ message.Error, n int) proxy.RetryDecision { return p.dec(n) }
+
+// c04CustomPolicy: the non-idempotent request classes under the eager policy. Outcomes after which the request may have
+// been applied must end the request whatever the policy says; the arrival log shows whether it was sent again.
+func c04CustomPolicy(c *Ctx, idx int) {
+	r := c.R
+	hosts := 2 + idx%2
+	c.Step("c04 custom retry policy idx=%d hosts=%d", idx, hosts)
+	bed, err := px.NewBed(px.BedConfig{Hosts: hosts, NumConns: 1, Keyspaces: []string{"ks1"}, ReconnectBase: time.Millisecond, ReconnectMax: 3 * time.Millisecond, RetryPolicy: eagerPolicy{}})
+	if err != nil {
+		r.Inconc("c04 custom policy: cannot start bed: " + err.Error())
+		return
+	}
+	defer bed.Close()
+	bed.OnHook(nil)
+	scripts := NewScripts()
+	bed.Cluster.SetScript(scripts.Func())
+	cl, err := bed.ReadyClient(primitive.ProtocolVersion4, "")
+	if err != nil {
+		r.Inconc("c04 custom policy: handshake: " + err.Error())
+		return
+	}
+	defer cl.Close()
+	if err := PrepareStandard(bed, cl, true); err != nil {
+		r.Inconc("c04 custom policy: prepare: " + err.Error())
+		return
+	}
+	outcomes := []model.Outcome{model.Overloaded, model.ServerError, model.Truncate, model.ReadFailure, model.WriteFailure, model.WriteTimeoutSimp, model.WriteTimeoutLog, model.WriteTimeoutCas, model.WriteFailureCas}
+	kinds := []ReqKind{KQuery, KExecute, KBatch}
+	for oi, o := range outcomes {
+		for ki, kind := range kinds {
+			tok := NewTok()
+			scripts.Set(tok, []model.Outcome{o, o, o, o})
+			mark := bed.Log.Len()
+			_, cerr := cl.CallF(BuildRequest(primitive.ProtocolVersion4, int16(1+oi*10+ki), kind, false, tok, primitive.ConsistencyLevelQuorum), 15*time.Second)
+			attempts := Traces(bed.Log.Snapshot()[mark:])[tok]
+			r.Eval(1)
+			r.Obs("custom_policy_cases", 1)
+			r.NonTrivial(fmt.Sprintf("custom-policy/%s/%s", o, kind))
+			if len(attempts) > 1 {
+				r.Violate(mon.Violation{Signature: fmt.Sprintf("C04/re-executed-after/%s/custom-retry-policy/%s", o, kind),
+					Detail:   fmt.Sprintf("a retry policy that always wants to retry is configured; a %s request that is not idempotent was answered %s and sent again: attempts %s (client error: %v)", kind, o, describe(attempts), cerr),
+					Scenario: map[string]interface{}{"kind": "c04-custom-policy", "idx": idx}, Witness: attempts})
+			}
+		}
+	}
 }
